@@ -30,7 +30,10 @@ def exitJson : Exit → Json
 def runRunner (j : Json) : Except String Json := do
   let regs ← (← jarr j "regs").mapM fun r => do
     let a ← r.getArr?
-    pure ((← a[0]!.getNat?), (← a[1]!.getBool?))
+    let late ← (← a[2]!.getArr?).toList.mapM fun l => do
+      let b ← l.getArr?
+      pure ((← b[0]!.getNat?), (← b[1]!.getBool?))
+    pure (⟨(← a[0]!.getNat?), (← a[1]!.getBool?), late⟩ : RegSpec)
   let ending ← endingOfJson (← j.getObjVal? "ending")
   let (outs, ex) := runApp ⟨regs, ending⟩
   let starts := (outStrs outs).filter (·.startsWith "td+")
